@@ -43,7 +43,7 @@ func main() {
 		Rule: "terms of the closure language of harness/mini/enum_cl.go (statements: declare, write, read, create closure, create-and-store in a list, call, call list element, " +
 			"pass to a method, for-in loop, closure frame / method frame returning its closures, method frame ending in a tail call) pruned to well-formed ones (every closure captures, every variable is captured, " +
 			"every closure is used, stored closures are called); layer A = closures, nesting and closure frames over ≤ 2 variables; layer B = all statements over ≤ 3 variables; layer C = B without loops, lists and tail-call frames; " +
-			"quick: B with ≤ 5 statements as top-level code and as a method body, A with 6–7 as top-level code; thorough: B with ≤ 6 and A with 7 both ways, A with 8 as top-level code, C with 7 as a method body; " +
+			"quick: B with ≤ 5 statements as top-level code and as a method body, A with 6–7 as top-level code; thorough: B with ≤ 6 both ways, A with 7–8 as top-level code, C with 7 as a method body; " +
 			"every program run with the default stack and, when the " +
 			"closure-free growth canary passes, again with a 64-slot initial value stack and recursion hooks after every closure creation and at the start of every closure body; " +
 			"oracle: stdout equals the reference interpreter's; terms are distinct (no repetition); every term is non-trivial (it calls a closure that captured a variable)",
@@ -74,7 +74,8 @@ func layers(thorough bool) []layer {
 	if !thorough {
 		return []layer{{"B", b, 1, 5, both}, {"A", a, 6, 7, top}}
 	}
-	return []layer{{"B", b, 1, 6, both}, {"A", a, 7, 7, both}, {"A", a, 8, 8, top}, {"C", cc, 7, 7, meth}}
+	// C with 7 statements as a method body includes A with 7 as a method body
+	return []layer{{"B", b, 1, 6, both}, {"A", a, 7, 8, top}, {"C", cc, 7, 7, meth}}
 }
 
 // ---------------------------------------------------------------------------------------------
